@@ -89,7 +89,9 @@ theorem tclosed_def (s : SchemaD) (df : Def) (i : Nat) (sels : List Sel) (v : Vi
   | op kind name vars dirs j ss =>
     simp only [tnDef, List.mem_cons, List.mem_append, Prod.mk.injEq, reduceCtorEq, false_and, false_or] at h
     rcases h with (h | h) | h | h
-    · exact (notSelT (varDefsNodes_noSelSet _ _ (mem_withView h)) rfl).elim
+    · have hm : (Node.selectionSet i sels, v).1 ∈ vars.flatMap varDefNodes := by
+        rw [← tnVarDefs_fst s _ vars]; exact List.mem_map.mpr ⟨_, h, rfl⟩
+      exact (notSelT (varDefsNodes_noSelSet _ _ hm) rfl).elim
     · exact (notSelT (dirsNodes_noSelSet _ _ (mem_tnDirs h)) rfl).elim
     · obtain ⟨⟨rfl, rfl⟩, rfl⟩ := h
       refine ⟨fun q hq => ?_, rfl⟩
